@@ -38,3 +38,9 @@ pub fn to_u64_t(d: &[u8], start: u64) -> Result<(u64, &[u8]), crate::ScalarError
 pub fn to_i64_t(d: &[u8]) -> Result<(i64, &[u8]), crate::ScalarError> {
     crate::scalar::to_i64_t(d)
 }
+
+/// buffer.rs: the stream buffer window and its offset based hooks
+pub mod buffer {
+    pub use crate::buffer::verif_hooks::*;
+    pub use crate::buffer::{BufferError, BufferWindow, BufferWindowBuilder};
+}
